@@ -102,6 +102,41 @@ func reportMaterial(t *vk.T, proto string, shares []fx.Share, n, th int, tag str
 	return false
 }
 
+// c02Outsider: every real message is preceded on the wire, at its recipient, by a copy that names an identity outside
+// the participant list as its sender (what anybody on the network can produce).  Key generation is an agreement
+// between the listed parties: the copies must have no effect, i.e. the session completes and satisfies the same
+// oracle.  Returns the Prepare hook and a counter of the copies delivered.
+func c02Outsider(ids []party.ID, k int) (func(n *sim.Net), *int) {
+	names := []party.ID{"stranger", party.ID("\x01"), party.ID(string(ids[len(ids)-1]) + "~"), party.ID("\xf4\x8f\xbf\xbf")}
+	who := names[k%len(names)]
+	for _, id := range ids {
+		if id == who {
+			who = "stranger-of-another-name"
+		}
+	}
+	cnt := new(int)
+	return func(n *sim.Net) {
+		n.OnDeliver = func(_ *sim.Net, d *sim.Delivery) []*sim.Delivery {
+			if d.Tag != "" || len(d.Bytes) == 0 {
+				return []*sim.Delivery{d}
+			}
+			m := sim.Decode(d.Bytes)
+			m.From = who
+			b, err := m.MarshalBinary()
+			if err != nil {
+				return []*sim.Delivery{d}
+			}
+			c := *d
+			c.Bytes, c.From, c.Orig, c.Emitter, c.Tag = b, who, nil, nil, "outsider"
+			if c.Target == nil {
+				c.Target = n.Party(d.To)
+			}
+			*cnt++
+			return []*sim.Delivery{&c, d}
+		}
+	}, cnt
+}
+
 func c02Frost(t *vk.T, n, th int, taproot bool, rep int) {
 	alpha := (rep + n + th) % 4
 	ids := fx.IDs(t.Rng, alpha, n)
@@ -109,9 +144,19 @@ func c02Frost(t *vk.T, n, th int, taproot bool, rep int) {
 	proto := "frost"
 	var shares []fx.Share
 	var net *sim.Net
+	opt := fx.Opt{Sched: sched}
+	var outsiderCopies *int
+	if rep%3 == 1 && n > 1 {
+		opt.Prepare, outsiderCopies = c02Outsider(ids, rep/3+n+th)
+		sname += "+outsider-copies"
+		defer func() {
+			t.Obs("outsider_copies_delivered", int64(*outsiderCopies))
+			t.Distinct("%s|outsider-copies|n=%d|t=%d", proto, n, th)
+		}()
+	}
 	if taproot {
 		proto = "frost-taproot"
-		cfgs, nn, err := fx.FrostKeygenTaproot(t.Rng, ids, th, fx.Opt{Sched: sched})
+		cfgs, nn, err := fx.FrostKeygenTaproot(t.Rng, ids, th, opt)
 		net = nn
 		if err != nil {
 			t.Violation(proto+"|keygen-did-not-complete", "n=%d t=%d ids=%q sched=%s: %v", n, th, ids, sname, err)
@@ -121,7 +166,7 @@ func c02Frost(t *vk.T, n, th int, taproot bool, rep int) {
 			shares = append(shares, fx.ShareOfTaproot(cfgs[id]))
 		}
 	} else {
-		cfgs, nn, err := fx.FrostKeygen(t.Rng, ids, th, fx.Opt{Sched: sched})
+		cfgs, nn, err := fx.FrostKeygen(t.Rng, ids, th, opt)
 		net = nn
 		if err != nil {
 			t.Violation(proto+"|keygen-did-not-complete", "n=%d t=%d ids=%q sched=%s: %v", n, th, ids, sname, err)
@@ -189,7 +234,17 @@ func c02CMP(t *vk.T, n, th int, i int) {
 	alpha := i % 4
 	ids := fx.IDs(t.Rng, alpha, n)
 	sname, sched := pickSched(t.Rng, ids)
-	cfgs, net, err := fx.CMPKeygen(t.Rng, ids, th, nil, fx.Opt{Sched: sched})
+	opt := fx.Opt{Sched: sched}
+	if i%2 == 1 {
+		var copies *int
+		opt.Prepare, copies = c02Outsider(ids, i/2)
+		sname += "+outsider-copies"
+		defer func() {
+			t.Obs("outsider_copies_delivered", int64(*copies))
+			t.Distinct("cmp|outsider-copies|n=%d|t=%d", n, th)
+		}()
+	}
+	cfgs, net, err := fx.CMPKeygen(t.Rng, ids, th, nil, opt)
 	if err != nil {
 		t.Violation("cmp|keygen-did-not-complete", "n=%d t=%d ids=%q sched=%s: %v", n, th, ids, sname, err)
 		return
